@@ -125,6 +125,12 @@ class Prov:
 
     def _origin(self, e, fc, depth, chain):
         prog, T = self.prog, self.T
+        from .pysrc import unpartial as _unp
+
+        up_ = _unp(prog, fc.module, e)
+        if up_ is not None:
+            ast.fix_missing_locations(up_)
+            e = up_   # a module-level partial application, called
         ch = chain + (self._here(e, fc) + " " + _short(e),)
         if isinstance(e, ast.Constant):
             if isinstance(e.value, (int, float)) and not isinstance(e.value, bool):
